@@ -1184,7 +1184,7 @@ func executeFree(sc Script, rep *kit.Report) error {
 		for _, p := range spec.Peers {
 			peers = append(peers, base[p%len(base)].addr)
 		}
-		m := s.newMember(0)
+		m := &member{view: map[node.Key]bool{}, approved: map[node.Key]int{}, label: fmt.Sprintf("pledger%d", i)}
 		m.addr = address.Address(fmt.Sprintf("p%d", i))
 		s.wg.Add(1)
 		go func(i int, spec PSpec) {
